@@ -209,7 +209,9 @@ fn run_table<E: EndianParse, P: ParseAt + Show>(
             }
             ("get", 2) => show_res(o, t.get(q[1].us()), |o, v| v.show(o))?,
             ("walk", _) => {
+                let was = alloc_count::suspend();
                 let acts: Vec<usize> = q[1..].iter().map(|t| t.us()).collect();
+                alloc_count::restore(was);
                 let it: ParsingIterator<E, P> = ParsingIterator::new(e, c, d);
                 walk_iter(o, it, &acts, &|o, x: &P| x.show(o))?;
             }
